@@ -138,7 +138,9 @@ def rand_stmt(rng, labels, allow_pcr=True):
         t = rng.choice(["%s,PCR", "[%s,PCR]", "%s+1,PCR", "%s-2,PCR"]) % L
         return "%s %s" % (rng.choice(IDX_MN), t)
     if r < 0.50 and L:
-        return "%s %s" % (rng.choice(["JMP", "JSR", "LDX", "LDA", "STD"]), rng.choice([">%s", "%s", "%s+1", "[%s]", "#%s"]) % L if rng.random() < 0.8 else L)
+        mn = rng.choice(["JMP", "JSR", "LDX", "LDA", "STD", "LDY", "CMPX"])
+        forms = [">%s", "%s", "%s+1", "[%s]", "%s-2"] + (["#%s"] if mn in ("LDX", "LDY", "CMPX") else [])
+        return "%s %s" % (mn, rng.choice(forms) % L)
     if r < 0.58:
         return "RMB %d" % rng.choice([0, 1, 2, 5, 100, 120, 121, 122, 123, 124, 125, 126, 127, 128, 129, 130, 250, 300])
     if r < 0.64:
@@ -169,8 +171,8 @@ def rand_program(rng, n=None, org=True, names=None):
     pool = names or ["L%d" % k for k in range(40)] + ["LOOP", "START", "DONE", "TBL", "A1", "B2", "XX", "PCR1", "S9", "AT@X"]
     labels = rng.sample(pool, min(nlabels, len(pool)))
     lines = []
-    if org and rng.random() < 0.7:
-        lines.append(" ORG %s\n" % rng.choice(["$0E00", "$0000", "$0010", "$00F0", "$7F00", "3584", "$FF00", "$0100"]))
+    if org and rng.random() < 0.9:
+        lines.append(" ORG %s\n" % rng.choice(["$0E00", "$0E00", "$1000", "$7F00", "3584", "$FF00", "$0100", "$0100", "$4000", "$0000", "$0010", "$00F0"]))
     if rng.random() < 0.3:
         lines.append(" NAM %s\n" % rng.choice(["TEST", "hello", "LONGNAME12", "A"]))
     where = {}
@@ -228,3 +230,241 @@ def _mutate(rng, line):
     if m == 7:
         return line.replace(" ", "  ", 1)
     return line + " ; c"
+
+
+# ------------------------------------------------------------------------------------------------
+# C03: branches and label,PCR at distances around the limits
+# ------------------------------------------------------------------------------------------------
+
+def filler(n):
+    """n bytes of filler that needs no operand resolution"""
+    return [" RMB %d\n" % n] if n else []
+
+
+def branch_cases(rng, tier):
+    q = tier == "quick"
+    short_d = [0, 1, 2, 100, 124, 125, 126, 127, 128, 129, 130, 131, 200] if q else list(range(0, 301))
+    for mn in SHORT_BR:
+        for n in (short_d if mn in ("BRA", "BNE", "BSR") or not q else [0, 125, 126, 127, 128, 129]):
+            # forward: d = n (bytes between the end of the branch and the target)
+            yield (["S %s T\n" % mn] + filler(n) + ["T NOP\n"], {"kind": "branch", "dir": "fwd", "n": n, "expect": "ok" if n <= 127 else "diag"})
+            # backward: d = -(n + 1 + 2) with a 1-byte target statement
+            yield (["T NOP\n"] + filler(n) + [" %s T\n" % mn], {"kind": "branch", "dir": "bwd", "n": n, "expect": "ok" if n + 3 <= 128 else "diag"})
+    long_d = [0, 1, 126, 127, 128, 129, 255, 256, 300, 32760, 32764, 32765, 32766, 32767, 32768, 32769, 40000]
+    for mn in LONG_BR:
+        for n in (long_d if mn in ("LBRA", "LBNE", "LBSR") or not q else [0, 127, 128, 300]):
+            yield (["S %s T\n" % mn] + filler(n) + ["T NOP\n"], {"kind": "branch", "dir": "fwd", "n": n, "expect": "ok"})
+            yield (["T NOP\n"] + filler(n) + [" %s T\n" % mn], {"kind": "branch", "dir": "bwd", "n": n, "expect": "ok"})
+    # branches with other statements (incl. undecided PCR statements) in between, origins near the wrap
+    for _ in range(150 if q else 3000):
+        mn = rng.choice(SHORT_BR + LONG_BR)
+        mid = [" %s\n" % rand_stmt(rng, ["T", "S"]) for _ in range(rng.randrange(0, 12))]
+        org = rng.choice([[], [" ORG $0E00\n"], [" ORG $FF00\n"], [" ORG $00F0\n"]])
+        if rng.random() < 0.5:
+            yield (org + ["S %s T\n" % mn] + mid + ["T NOP\n"], {"kind": "branch", "dir": "fwd-mixed"})
+        else:
+            yield (org + ["T NOP\n", "S NOP\n"] + mid + [" %s T\n" % mn], {"kind": "branch", "dir": "bwd-mixed"})
+    # label,PCR
+    pcr_mn = ["LEAX", "LDA", "LDX", "LDY", "CMPS", "JSR", "STD", "LEAS"]
+    dist = list(range(108, 136)) if q else list(range(0, 300))
+    for mn in (pcr_mn[:4] if q else pcr_mn):
+        for tmpl in (["T,PCR", "[T,PCR]"] if q else ["T,PCR", "[T,PCR]", "T+1,PCR", "T-2,PCR"]):
+            for n in (dist if mn in ("LEAX", "LDY") or not q else [118, 119, 120, 121, 122, 123, 124, 125, 126, 127, 128, 129]):
+                yield ([" %s %s\n" % (mn, tmpl)] + filler(n) + ["T NOP\n"], {"kind": "pcr", "dir": "fwd", "n": n})
+                yield (["T NOP\n"] + filler(n) + [" %s %s\n" % (mn, tmpl)], {"kind": "pcr", "dir": "bwd", "n": n})
+    for n in [250, 32750, 32760, 32761, 32762, 32763, 32764, 32765, 32766, 32767, 32768, 32770, 33000]:
+        for mn in ("LEAX", "LDY"):
+            yield ([" %s T,PCR\n" % mn] + filler(n) + ["T NOP\n"], {"kind": "pcr", "dir": "fwd", "n": n})
+            yield (["T NOP\n"] + filler(n) + [" %s T,PCR\n" % mn], {"kind": "pcr", "dir": "bwd", "n": n})
+    # several undecided PCR statements whose sizes depend on each other
+    for _ in range(600 if q else 20000):
+        k = rng.randrange(1, 5)
+        targets = ["T%d" % j for j in range(k)] + ["FAR"]
+        body = []
+        for j in range(k):
+            body.append(" %s %s\n" % (rng.choice(pcr_mn), rng.choice(["%s,PCR", "[%s,PCR]", "%s+1,PCR"]) % rng.choice(targets)))
+            if rng.random() < 0.5:
+                body.append(" %s\n" % rng.choice(["LDA 100,X", "LDX $1234", "NOP", "LDA -20,Y", "LDD 300,U"]))
+        n = rng.choice(list(range(100, 132)))
+        body += filler(n)
+        lines = []
+        placed = set()
+        for j, t in enumerate(targets[:-1]):
+            pos = rng.randrange(len(body) + 1)
+            body.insert(pos, "%s NOP\n" % t)
+        lines = body + filler(rng.choice([0, 200, 400])) + ["FAR NOP\n"]
+        if rng.random() < 0.3:
+            lines = [" ORG $%04X\n" % rng.choice([0x0E00, 0xFE00, 0x00F0])] + lines
+        yield (lines, {"kind": "pcr-multi", "k": k, "n": n})
+
+
+# ------------------------------------------------------------------------------------------------
+# C04: expressions
+# ------------------------------------------------------------------------------------------------
+
+def num_spell(rng, v):
+    return rng.choice([t for _, t in spellings(v) if not t.startswith("'")])
+
+
+def expr_cases(rng, tier):
+    q = tier == "quick"
+    positions = [("imm8", "LDA #%s"), ("imm16", "LDX #%s"), ("ext", "LDA %s"), ("ext", "JMP %s"), ("extind", "LDA [%s]"),
+                 ("idx", "LDA %s,X"), ("idx", "LDX %s,Y"), ("pcr", "LEAX %s,PCR"), ("equ", "R EQU %s"), ("fcb", "FCB %s"), ("fdb", "FDB %s")]
+    nums = [0, 1, 2, 5, 15, 16, 100, 127, 128, 255, 256, 257, 1000, 4096, 32767, 32768, 65535]
+    ops = ["+", "-", "*", "/"]
+    n_each = 14 if q else 120
+    for pos, tmpl in positions:
+        for kinds in [("num", "num"), ("equ", "num"), ("num", "equ"), ("equ", "equ"), ("lb", "num"), ("la", "num"), ("num", "lb"), ("lb", "lb"), ("lb", "equ"), ("single-equ",), ("single-lb",), ("single-la",)]:
+            for _ in range(n_each if len(kinds) == 2 else 4):
+                pre = [" ORG $%04X\n" % rng.choice([0x1000, 0x0E00, 0x0020, 0x8000])]
+                post = []
+                terms = []
+                texts = []
+                for side, kd in enumerate(kinds):
+                    kd = kd.replace("single-", "")
+                    if kd == "num":
+                        v = rng.choice(nums)
+                        terms.append(("num", v))
+                        texts.append(num_spell(rng, v))
+                    elif kd == "equ":
+                        v = rng.choice(nums)
+                        nm = "V%d" % side
+                        pre.append("%s EQU %s\n" % (nm, num_spell(rng, v)))
+                        terms.append(("equ", nm, v))
+                        texts.append(nm)
+                    elif kd == "lb":
+                        nm = "B%d" % side
+                        pre.append("%s NOP\n" % nm)
+                        pre += filler(rng.choice([0, 3, 300]))
+                        terms.append(("label", nm))
+                        texts.append(nm)
+                    else:
+                        nm = "A%d" % side
+                        post += filler(rng.choice([0, 3, 300]))
+                        post.append("%s NOP\n" % nm)
+                        terms.append(("label", nm))
+                        texts.append(nm)
+                op = rng.choice(ops) if len(kinds) == 2 else None
+                etxt = texts[0] if op is None else texts[0] + op + texts[1]
+                body = tmpl % etxt
+                line = (body if pos == "equ" else " " + body) + "\n"
+                desc = {"kind": "expr", "pos": pos, "terms": terms, "op": op, "stmt": len(pre), "etxt": etxt,
+                        "has_label": any(t[0] == "label" for t in terms), "kinds": kinds}
+                if op == "/" and terms[1][0] != "label" and terms[1][-1] == 0:
+                    desc["divzero"] = True
+                # may_reject: decided at judge time from the value; computed here when no label is involved
+                if not desc["has_label"]:
+                    vals = [t[-1] for t in terms]
+                    if not desc.get("divzero"):
+                        r = vals[0] if op is None else {"+": vals[0] + vals[1], "-": vals[0] - vals[1], "*": vals[0] * vals[1], "/": vals[0] // vals[1] if vals[1] else 0}[op]
+                        desc["may_reject"] = not 0 <= r <= 65535
+                else:
+                    desc["may_reject"] = op in ("-", "*")
+                yield (pre + [line] + post, desc)
+    # order independence: the same EQU symbol defined before and after its use
+    for _ in range(40 if q else 600):
+        v = rng.choice(nums)
+        pos, tmpl = rng.choice(positions[:8])
+        yield ([" ORG $1000\n", " " + tmpl % "V9" + "\n", "V9 EQU %s\n" % num_spell(rng, v)],
+               {"kind": "expr", "pos": pos, "terms": [("equ", "V9", v)], "op": None, "stmt": 1, "etxt": "V9", "has_label": False, "kinds": ("equ-after",), "may_reject": False})
+
+
+# ------------------------------------------------------------------------------------------------
+# C05: data directives
+# ------------------------------------------------------------------------------------------------
+
+PRINTABLE = "".join(chr(c) for c in range(32, 127))
+
+
+def data_cases(rng, tier):
+    q = tier == "quick"
+
+    def enc(v, w):
+        return ("%0" + str(2 * w) + "X") % (v % (256 ** w))
+    for mn, w, lo, hi in (("FCB", 1, -128, 255), ("FDB", 2, -32768, 65535)):
+        for _ in range(400 if q else 8000):
+            n = rng.choice([1, 1, 2, 3, 8, 16, 64])
+            vals, txt, bad, sym = [], [], False, False
+            for _ in range(n):
+                r = rng.random()
+                if r < 0.70:
+                    v = rng.choice(VALUES)
+                    v = v if v <= hi or rng.random() < 0.08 else v % (hi + 1)
+                    t = num_spell(rng, v)
+                elif r < 0.9:
+                    v = rng.choice(NEG_VALUES)
+                    v = v if v >= lo or rng.random() < 0.08 else -(abs(v) % (-lo)) - 1
+                    t = str(v)
+                else:
+                    v = 0x34
+                    t = "SYM"
+                    sym = True
+                bad = bad or not lo <= v <= hi
+                vals.append(v)
+                txt.append(t)
+            lines = ["SYM EQU $34\n", " %s %s\n" % (mn, ",".join(txt))]
+            d = {"kind": "data", "mn": mn, "n": n, "stmt": 1, "has_symbol": sym, "has_negative": any(v < 0 for v in vals), "single": n == 1, "vals": vals}
+            if bad:
+                d.update(expect="diag", why="%s value outside %d..%d" % (mn, lo, hi))
+            else:
+                d["bytes"] = "".join(enc(v, w) for v in vals)
+            yield (lines, d)
+    # labels in data
+    for mn, w in (("FCB", 1), ("FDB", 2)):
+        yield ([" ORG $0012\n", "L NOP\n", " %s L\n" % mn], {"kind": "data", "mn": mn, "stmt": 2, "has_symbol": True, "bytes": enc(0x12, w), "single": True, "vals": [0x12]})
+        yield ([" ORG $0012\n", "L NOP\n", " %s 1,L\n" % mn], {"kind": "data", "mn": mn, "stmt": 2, "has_symbol": True, "bytes": enc(1, w) + enc(0x12, w), "single": False, "vals": [1, 0x12]})
+    # FCC
+    delims = "\"'/|!#$%&()*+,-.:;<=>?@[]^_`{}~ABZaz09"
+    for _ in range(500 if q else 10000):
+        d = rng.choice(delims)
+        n = rng.choice([0, 1, 2, 3, 8, 32, 100, 254, 255, rng.randrange(256)])
+        alphabet = rng.choice([PRINTABLE, " ;A", "  ", PRINTABLE, ";,\"'/ "])
+        s = "".join(rng.choice(alphabet) for _ in range(n)).replace(d, "x" if d != "x" else "y")
+        tail = rng.choice(["", " ; comment", " trailing words", "   ", " ;"])
+        lb = rng.choice(["", "MSG"])
+        yield (["%s FCC %s%s%s%s\n" % (lb, d, s, d, tail)], {"kind": "fcc", "stmt": 0, "bytes": s.encode("latin-1").hex().upper(), "len": n, "delim": d})
+    for bad in ['"ABC', "/AB", '"', "", '"AB\' x']:
+        yield ([" FCC %s\n" % bad], {"kind": "fcc", "stmt": 0, "expect": "diag", "why": "unterminated string"})
+    # RMB
+    for n in [0, 1, 2, 127, 128, 255, 256, 257, 1000, 4095, 32768, 65535] + [rng.randrange(65536) for _ in range(20 if q else 300)]:
+        for t in {str(n), "$%X" % n, "$%04X" % n}:
+            yield ([" RMB %s\n" % t], {"kind": "rmb", "stmt": 0, "bytes": "00" * n, "n": n})
+    # directives that emit nothing
+    for ln in [" ORG $1000\n", "V EQU 5\n", " SETDP 0\n", " SETDP $10\n", " NAM TEST\n", " END\n", " END START\n", " END $1000\n", "X1 SET 5\n"]:
+        yield ([ln, "START NOP\n"] if "START" in ln else [ln], {"kind": "nobytes", "stmt": 0, "bytes": ""})
+    yield ([" INCLUDE other.asm\n"], {"kind": "nobytes", "stmt": 0, "bytes": "", "files": {"other.asm": []}})
+
+
+# ------------------------------------------------------------------------------------------------
+# C13: stress
+# ------------------------------------------------------------------------------------------------
+
+def stress_cases(rng, tier):
+    q = tier == "quick"
+    for _ in range(5000 if q else 100000):
+        p = rand_program(rng, n=rng.choice([1, 2, 3, 6]))
+        for _ in range(rng.choice([1, 1, 2])):
+            i = rng.randrange(len(p))
+            p[i] = mutate_line(rng, p[i])
+        yield (p, {"kind": "mut"})
+    alphabet = " \tABXYZLDNOPRMB019#$%<>[],+-;'\"*/@._\n"
+    for _ in range(1500 if q else 30000):
+        p = ["".join(rng.choice(alphabet[:-1]) for _ in range(rng.randrange(0, 16))) + "\n" for _ in range(rng.choice([1, 2, 3]))]
+        yield (p, {"kind": "random"})
+    for ln in [" END\n", " NAM\n", " BRA\n", " FCB\n", " FDB\n", " RMB\n", " ORG\n", " EQU 5\n", "V EQU\n", " LDA #\n", " LDA [\n", " LDA ]\n", " LDA ,\n", " LDA ,,\n",
+               " FCC\n", ' FCC "\n', ' FCC "abc\n', " INCLUDE\n", " SETDP\n", " PSHS\n", " TFR\n", " TFR A\n", " LDA '\n", " LDA $\n", " LDA %\n", " LDA -\n",
+               "B1 EQU A1+1\n", " LDA [1,2,3]\n", " JMP [,]\n", " LEAX ,PCR\n", " LEAX [,PCR]\n", " LDA ''\n", "\n", "", " ", ";", "L\n", "L:\n"]:
+        yield ([ln], {"kind": "edge"})
+        yield (["A1 NOP\n", ln, " NOP\n"], {"kind": "edge"})
+    # the PCR boundary family at every distance, with several undecided statements
+    for c in branch_cases(rng, tier):
+        if c[1]["kind"].startswith("pcr"):
+            yield (c[0], {"kind": "pcr-family"})
+    # INCLUDE: cycles, missing files, deep nesting
+    yield ([" INCLUDE a.asm\n"], {"kind": "include", "files": {"a.asm": [" INCLUDE b.asm\n"], "b.asm": [" INCLUDE a.asm\n"]}})
+    yield ([" INCLUDE a.asm\n"], {"kind": "include", "files": {"a.asm": [" INCLUDE a.asm\n"]}})
+    yield ([" NOP\n", " INCLUDE missing.asm\n"], {"kind": "include", "files": {}})
+    yield ([" INCLUDE a.asm\n", " INCLUDE a.asm\n"], {"kind": "include", "files": {"a.asm": [" NOP\n"]}})
+    deep = {"f%d.asm" % k: [" NOP\n", " INCLUDE f%d.asm\n" % (k + 1)] for k in range(30)}
+    deep["f30.asm"] = [" RTS\n"]
+    yield ([" INCLUDE f0.asm\n"], {"kind": "include", "files": deep})
